@@ -111,6 +111,13 @@ def classify_exception(e) -> Violation | None:
     """An exception that escapes run() and passed through flodym code is an unexpected
     failure of the code under test; anything else is a harness error."""
     where = _has_flodym_frame(e)
+    if where is None and type(e).__name__ == "ValidationError" and hasattr(e, "title"):
+        # pydantic runs the library's validators from its compiled core, so the validator's
+        # frames are not in the traceback; the title names the model being built
+        import flodym
+
+        if hasattr(flodym, str(e.title)) or any(hasattr(getattr(flodym, m, None), str(e.title)) for m in ("export", "lifetime_models", "stocks")):
+            where = f"validation:{e.title}"
     if where is None:
         return None
     v = Violation(f"unexpected-{type(e).__name__}@{where}", f"{type(e).__name__}: {e}"[:400])
